@@ -184,6 +184,14 @@ func runCheck(w *World, prop string, timeoutS int, confirm bool, known *KnownFil
 			res.KnownInfo[s.Name] = k
 			continue
 		}
+		// a frame obligation speaks about the contract's own "nothing else
+		// changes" clause, not about the property: when the code now writes
+		// state the contract does not mention, the honest answer is that the
+		// contract no longer fits (undecided), not that the property is violated
+		if s.Kind == "frame" || s.Kind == "loop.frame" {
+			res.ToolErrors = append(res.ToolErrors, fmt.Sprintf("contract-mismatch: %s is not discharged (the function changes state outside its modifies clause, or the clause can no longer be proved)", s.Name))
+			continue
+		}
 		res.Violations = append(res.Violations, s)
 	}
 	res.Wall = time.Since(t0).Seconds()
